@@ -142,6 +142,21 @@ def _kinds(cyc, edges, ks=(0, -1), width=False, **kw):
         yield _case("width", cyc, edges, **kw)
 
 
+def _width_sequences(cyc, E, st, en, seed):
+    """several get_width calls on ONE s-t graph object with different ignore sets in different orders (a stale cache must show)"""
+    if len(E) < 2:
+        return
+    A = [list(E[seed % len(E)])]
+    B = [list(E[(seed + 1) % len(E)])]
+    C = [list(e) for e in E[:-1]] if len(E) > 2 else B
+    for seq in ([A, [], B, A, C], [[], B, A, []], [C, A, [], B]):
+        yield _case("widthseq", cyc, E, starts=list(st), ends=list(en), seq=seq)
+    if len(E) >= 3:
+        for r in (1, 2):
+            combos = [[list(e) for e in ign] for ign in itertools.combinations(E, r)]
+            yield _case("widthseq", cyc, E, starts=list(st), ends=list(en), seq=combos[seed % 2::2][:8] + [[]] + combos[:6])
+
+
 def _dag_family(G, full, stride_seed):
     E = list(G.edges())
     V = list(G.nodes())
@@ -163,6 +178,8 @@ def _dag_family(G, full, stride_seed):
                 if (n + stride_seed) % 2 == 0:
                     yield _case("k", False, E, ignore=[list(e) for e in ign], dk=0)
                     yield _case("k", False, E, ignore=[list(e) for e in ign], dk=-1)
+    for c in _width_sequences(False, E, [], [], stride_seed):
+        yield c
     # C. additional starts / ends
     inner_s = [v for v in V if G.in_degree(v) > 0]
     inner_t = [v for v in V if G.out_degree(v) > 0]
@@ -195,6 +212,14 @@ def _dag_family(G, full, stride_seed):
             lens = {"%s|%s" % e: (1, 2, 3)[i % 3] for i, e in enumerate(E) if i != 1}       # one edge without the attribute (counts 1)
             variants.append(dict(cons=[longest], covlen=0.6, lengths=lens, ignore=longest[:-1] if len(longest) == len(E) else longest))
             variants.append(dict(cons=[longest], covlen=1.0, lengths=lens))
+            # relaxed BY LENGTH, edge-count coverage left at 1, nothing ignored: one heavy edge satisfies the constraint alone,
+            # the other edges of the constraint are not forced by it but must still be covered
+            heavy_last = {"%s|%s" % e: (7 if e == longest[-1] else 1) for e in E}
+            heavy_first = {"%s|%s" % e: (7 if e == longest[0] else 2) for e in E if e != longest[-1]}
+            variants.append(dict(cons=[longest], covlen=0.5, lengths=heavy_last))
+            variants.append(dict(cons=[longest], covlen=0.6, lengths=heavy_first))
+            if len(pe) >= 2 and len(pe[1]) >= 2:
+                variants.append(dict(cons=[longest, pe[1]], covlen=0.5, lengths=heavy_last))
         if len(longest) >= 3:
             variants.append(dict(cons=[[longest[0], longest[2]]]))                           # gapped
             variants.append(dict(cons=[longest[:2], longest[1:3]]))                          # overlapping, same path
@@ -211,7 +236,7 @@ def _dag_family(G, full, stride_seed):
         for vi, v in enumerate(variants):
             v = {k: ([[list(e) for e in c] for c in val] if k == "cons" else [list(e) for e in val] if k == "ignore" else val) for k, val in v.items()}
             yield _case("min", False, E, **v)
-            if (vi + stride_seed) % 2 == 0:
+            if (vi + stride_seed) % 2 == 0 or (v.get("covlen") is not None and v["covlen"] < 1 and not v.get("ignore")):
                 yield _case("k", False, E, dk=0, **v)
                 yield _case("k", False, E, dk=-1, **v)
     # E. node cover
@@ -279,6 +304,8 @@ def _cyclic_family(ed, st, en, full, seed):
                 if (n + seed) % 3 == 0:
                     yield _case("k", True, E, starts=st, ends=en, ignore=[list(e) for e in ign], dk=0)
                     yield _case("k", True, E, starts=st, ends=en, ignore=[list(e) for e in ign], dk=-1)
+    for c in _width_sequences(True, E, st, en, seed):
+        yield c
     routes = walk_routes(tuple(E), (), tuple(st), tuple(en))
     big = [sorted(e for e in r if isinstance(e, tuple)) for r in routes]
     big = sorted((b for b in big if len(b) >= 2), key=lambda b: (-len(b), b))
@@ -316,9 +343,9 @@ def cases(tier):
             for gi, G in enumerate(graphs.dags(n, names)):
                 if n == 5 and gi % (6 if not quick else 10 ** 9):
                     continue
-                if names is graphs.NAMES2 and n == 4 and gi % (7 if quick else 2):
+                if names is graphs.NAMES2 and n == 4 and gi % (14 if quick else 2):
                     continue
-                full = names is graphs.NAMES1 and (n <= 4 or gi % 24 == 0) or (names is graphs.NAMES2 and n <= 3)
+                full = names is graphs.NAMES1 and (n <= 3 or (n == 4 and (not quick or gi % 2 == 0)) or gi % 24 == 0) or (names is graphs.NAMES2 and n <= 3)
                 for c in _dag_family(G, full, gi):
                     yield c
     # curated DAG-side specials: isolated nodes, single node, the docs' example
@@ -331,6 +358,17 @@ def cases(tier):
         yield _case("k", False, [("x", "y")], nodes=["v"], cover=cover, dk=0)
         yield _case("k", False, [("x", "y")], nodes=["v"], cover=cover, dk=-1)
     yield _case("width", False, [("x", "y")], nodes=["v"])
+    # length-relaxed constraint whose light edge is not forced by the constraint (y->w alone reaches 60% of the length) but must be covered
+    for ed, con, ln, cl in (([("x", "y"), ("z", "y"), ("y", "w")], [["x", "y"], ["y", "w"]], {"x|y": 1, "y|w": 3, "z|y": 1}, 0.6),
+                            ([("x", "y"), ("x", "z"), ("y", "w"), ("z", "w")], [["x", "y"], ["y", "w"]], {"x|y": 5, "y|w": 1, "x|z": 1, "z|w": 1}, 0.5),
+                            ([("x", "y"), ("y", "z"), ("y", "w"), ("v", "y")], [["x", "y"], ["y", "z"]], {"x|y": 1, "y|z": 9, "y|w": 2}, 0.9)):
+        for names in (graphs.NAMES1, graphs.NAMES2):
+            mp = dict(zip("xyzwv", names))
+            ed2 = [(mp[a], mp[b]) for a, b in ed]
+            kw = dict(cons=[[[mp[a], mp[b]] for a, b in con]], covlen=cl, lengths={"%s|%s" % tuple(mp[c] for c in k.split("|")): v for k, v in ln.items()})
+            yield _case("min", False, ed2, **kw)
+            yield _case("k", False, ed2, dk=0, **kw)
+            yield _case("k", False, ed2, dk=-1, **kw)
     doc = [("s", "a"), ("s", "b"), ("a", "b"), ("a", "c"), ("b", "c"), ("c", "d"), ("c", "t"), ("d", "t")]
     for c in _kinds(False, doc, ks=(0, -1, 1), width=True):
         yield c
@@ -344,9 +382,9 @@ def cases(tier):
                 idx += 1
                 if names is graphs.NAMES2 and idx % (9 if quick else 3):
                     continue
-                if n == 3 and not natural and idx % (20 if quick else 2):
+                if n == 3 and not natural and idx % (32 if quick else 2):
                     continue
-                full = natural or n <= 2 or idx % (60 if quick else 6) == 0
+                full = natural or n <= 2 or idx % (96 if quick else 6) == 0
                 for c in _cyclic_family(ed, st, en, full, idx):
                     yield c
     # four nodes: one source, one sink, cycles among the two inner nodes (natural sources / sinks only), strided
@@ -362,9 +400,9 @@ def cases(tier):
             if not in_domain_cyclic(tuple(ed), (), (), ()):
                 continue
             gi += 1
-            if gi % (6 if quick else 1):
+            if gi % (9 if quick else 1):
                 continue
-            for c in _cyclic_family(ed, (), (), gi % (2 if quick else 1) == 0, gi):
+            for c in _cyclic_family(ed, (), (), gi % (18 if quick else 1) == 0, gi):
                 yield c
     # curated cyclic specials: the D16 witness shape, the docs' example
     d16 = [("x", "y"), ("y", "z"), ("z", "y"), ("z", "w")]
@@ -461,6 +499,25 @@ def check(case):
     nontrivial = len(edges) > 1 or len(nodes) > 0
     kind = case["kind"]
 
+    if kind == "widthseq":
+        cls = fp.stDiGraph if case["cyc"] else fp.stDAG
+        g = cls(G, additional_starts=list(case["starts"]), additional_ends=list(case["ends"]))
+        ss = list(g.source_sink_edges)
+        got, exp, asked = [], [], []
+        for i, ign in enumerate(case["seq"]):
+            o = oracle_min(dict(case, ignore=ign))
+            if not o[2] or o[0] is None:
+                continue                                 # nothing left to cover: outside the domain of the width clause
+            if i % 2:
+                g.get_width()                            # an unrestricted call in between; its cached value must not leak
+            got.append(g.get_width([_el(x) for x in ign] + ss))
+            exp.append(o[0])
+            asked.append(ign)
+        if got != exp:
+            return dict(ok=False, nontrivial=True, fingerprint="%s.get_width called repeatedly on one object with different ignore sets differs from the minimum %s cover sizes" % (stname, rt),
+                        what="ignore sets %s (each + source/sink edges): get_width = %s, oracle %s; %s" % (asked, got, exp, _inst(case)), detail=dict(width=got, oracle=exp))
+        return dict(ok=True, nontrivial=len(set(exp)) > 1, detail=dict(widths=exp))
+
     if kind == "width":
         cls = fp.stDiGraph if case["cyc"] else fp.stDAG
         g = cls(G, additional_starts=list(case["starts"]), additional_ends=list(case["ends"]))
@@ -530,9 +587,10 @@ def run(tier="quick", seed=0, chunk=0, nchunks=1):
     return run_cases(cases(tier), check, chunk, nchunks, engine="rc",
                      rule="DAGs: all on <=4 named nodes (thorough: every 6th on 5), two naming schemes; digraphs with cycles: all on <=3 nodes incl. self-loops x every choice of <=1 additional "
                           "start and <=1 additional end putting every edge on a source-to-sink walk (quick: strided), plus source/two-inner/sink 4-node digraphs (strided); per graph: "
-                          "Min*Cover, k*Cover at k = optimum-1/optimum/optimum+1, get_width(ignore + source/sink edges) for every ignore set of size <=2 leaving an edge; edge and node cover, "
+                          "Min*Cover, k*Cover at k = optimum-1/optimum/optimum+1, get_width(ignore + source/sink edges) for every ignore set of size <=2 leaving an edge, and sequences of get_width calls "
+                          "on one object with different ignore sets in different orders; edge and node cover, "
                           "ignored elements, additional starts/ends, 1-2 subpath/subset constraints (contiguous, gapped, overlapping, duplicated, whole routes, over ignored edges; coverage 1, 0.5, "
-                          "length coverage); oracle = oracles.min_cover over all source-to-sink paths / all maximal walk supports (cross-checked with capped walk enumeration when <=5 edges); "
+                          "length coverage with and without ignored constraint edges); oracle = oracles.min_cover over all source-to-sink paths / all maximal walk supports (cross-checked with capped walk enumeration when <=5 edges); "
                           "non-trivial = more than one edge",
                      bounds="DAGs n<=%d; cyclic digraphs n<=3 (+4-node source/inner/inner/sink); ignore sets <=2; <=2 constraints; <=1 additional start and end; covers <=8 routes" % (4 if tier == "quick" else 5),
                      exhaustive=False)
